@@ -38,13 +38,12 @@ _OS_CACHE: dict = {}
 def _one_shot_producers(model: Model) -> tuple[dict, dict]:
     """(functions, properties) of the package every ``return`` of which hands out a one-shot iterator:
     qualname -> kind, and property name -> kind (a property is evaluated on attribute access)."""
-    key = id(model)
-    if key in _OS_CACHE:
-        return _OS_CACHE[key]
+    memo = model.__dict__.setdefault("_memo_one_shot", {})  # per model object: ids are reused after collection
+    if "v" in memo:
+        return memo["v"]
     funcs: dict[str, str] = {}
     props: dict[str, str] = {}
-    _OS_CACHE.clear()
-    _OS_CACHE[key] = (funcs, props)
+    memo["v"] = (funcs, props)
     changed = True
     rounds = 0
     while changed and rounds < 4:
@@ -124,13 +123,13 @@ def _is_one_shot(model: Model, fn: FunctionInfo, e: ast.expr) -> str | None:
         if r and r[0] == "func":
             if any(isinstance(n, (ast.Yield, ast.YieldFrom)) for n in ast.walk(r[1].node)):
                 return f"generator {e.func.id}(...)"
-            k = _one_shot_producers(model)[0].get(r[1].qualname) if id(model) in _OS_CACHE else None
+            k = _one_shot_producers(model)[0].get(r[1].qualname) if "v" in model.__dict__.get("_memo_one_shot", {}) else None
             if k is not None:
                 return k
         if r is None and e.func.id in {p.name for p in fn.params}:
             return _param_callable_kind(model, fn, e.func.id)
-    if isinstance(e, ast.Attribute) and id(model) in _OS_CACHE:
-        k = _OS_CACHE[id(model)][1].get(e.attr)
+    if isinstance(e, ast.Attribute) and "v" in model.__dict__.get("_memo_one_shot", {}):
+        k = model.__dict__["_memo_one_shot"]["v"][1].get(e.attr)
         if k is not None:
             return k
     return None
@@ -475,6 +474,8 @@ def _hands_back_argument(model: Model, fn: FunctionInfo, value: ast.expr, name: 
     if not callee.params:
         return False
     first = callee.params[0].name
+    if any(isinstance(n, ast.Name) and n.id == first and isinstance(n.ctx, ast.Store) for n in ast.walk(callee.node)):
+        return False  # the helper rebinds the name (`xs = list(xs)`): what it returns is its own object
     return any(isinstance(n, ast.Return) and isinstance(n.value, ast.Name) and n.value.id == first for n in ast.walk(callee.node))
 
 
